@@ -163,8 +163,14 @@ def gen_config(d: Draw, idx):
         ltype = 'iron' if depth_rank < 0.34 and len(fracs) > 1 else d.pick(['rock', 'rock', 'ice']) if depth_rank > 0.5 else 'rock'
         layer = {'type': ltype, 'is_tidal': (i == len(fracs) - 1) or d.chance(1, 3)}
         dens = {'iron': d.pick([8000.0, 12000.0]), 'rock': d.pick([3300.0, 5000.0]), 'ice': d.pick([950.0, 1300.0])}[ltype]
-        layer[d.pick(['density', 'density', 'density_bulk'])] = dens
-        how = d.weighted([('radius', 4), ('thickness', 1), ('both', 1)])
+        # how the layer's mass is prescribed: a density (either key), the mass itself, or (below, once it is known whether
+        # the world prescribes its mass) a fraction of the world's mass
+        mass_mode = d.weighted([('density', 8), ('density_bulk', 4), ('mass', 1), ('mass_frac', 1)])
+        layer['_mass_mode'] = mass_mode
+        layer['_dens'] = dens
+        how = d.weighted([('radius', 8), ('thickness', 2), ('both', 2), ('implicit_top', 1)])
+        if how == 'implicit_top' and (i != len(fracs) - 1 or len(fracs) < 2):
+            how = 'radius'                       # only the top layer may leave its geometry to the world radius
         if stack_style:
             how = 'radius' if i == 0 else 'thickness'
         if how in ('radius', 'both'):
@@ -180,6 +186,20 @@ def gen_config(d: Draw, idx):
         # explicit world mass (then layer masses need not add up to it)
         cfg['mass'] = 4.0 / 3.0 * math.pi * R ** 3 * d.pick([3000.0, 5500.0])
         cfg['_mass_given'] = True
+    lo = 0.0
+    for i, f in enumerate(fracs):
+        layer = cfg['layers']['L%d' % i]
+        mode, dens = layer.pop('_mass_mode'), layer.pop('_dens')
+        vol = 4.0 / 3.0 * math.pi * ((R * f) ** 3 - (R * lo) ** 3)
+        if mode == 'mass_frac' and not cfg['_mass_given']:
+            mode = 'density'
+        if mode == 'mass':
+            layer['mass'] = dens * vol
+        elif mode == 'mass_frac':
+            layer['mass_frac'] = dens * vol / cfg['mass']
+        else:
+            layer[mode] = dens
+        lo = f
     if d.chance(1, 3):
         cfg['force_spin_sync'] = d.chance(1, 2)
     if d.chance(1, 4):
